@@ -14,7 +14,7 @@ func init() {
 	register(&Check{
 		ID:    "C20",
 		Level: "exploration",
-		Rule: "(1) one real directory holding a regular file for EVERY name of <= 4 (thorough 5) chars over {a,b,.} (except . and ..) and two sub-directories whose names also match, x EVERY pattern of <= 5 (thorough 6) chars over {a,b,.,*} with at most 3 stars; (2) a real tree of depth 3 whose directory and file names range over {a,b,ab,ba} x every pattern of 1-3 segments over directory segments {a,b,ab,a*,*b,*a*,b*} and file segments {a,b,ab,a*,*b,a*b,*a*,*,**}, relative and absolute; " +
+		Rule: "(1) one real directory holding a regular file for EVERY name of <= 4 (thorough 5) chars over {a,b,.} (except . and ..) and two sub-directories whose names also match, x EVERY pattern of <= 5 (thorough 6) chars over {a,b,.,*} with at most 3 stars; (1b) one real directory holding a file for every name of <= 3 chars over {a,1,[,],?,backslash,-,^} x every pattern of <= 4 chars over these and `*` (every character but the star is literal); (1c) a directory with symbolic links to a directory (relative and absolute), to a nested directory, to a regular file and to nothing x 8 file segments x 11 directory segments at depth 1-3, relative and absolute: a link counts as what it points to; (2) a real tree of depth 3 whose directory and file names range over {a,b,ab,ba} x every pattern of 1-3 segments over directory segments {a,b,ab,a*,*b,*a*,b*} and file segments {a,b,ab,a*,*b,a*b,*a*,*,**}, relative and absolute; " +
 			"oracle: a reference matcher (`*` = any run within a segment, segments matched one to one) applied to a walk of the tree; the returned list must equal it as a set, without duplicates and without directories; non-trivial = distinct (pattern,tree) pairs whose expected set is non-empty and not everything",
 		Assume: []string{"directory segments made only of stars and `.`/`..` segments are excluded, as the property says"},
 		Budget: map[string]int{"quick": 120, "thorough": 900},
@@ -166,6 +166,88 @@ func runC20(c *Ctx) {
 			}
 			if c.Unit(func() string { return "flat: " + pat }) {
 				c20Compare(c, flat, pat, false, names, "flat")
+			}
+		}
+	}
+	// (1b) every character but `*` is literal: names and patterns over characters that other
+	// glob dialects treat as special
+	special := filepath.Join(root, "special")
+	os.Mkdir(special, 0o755)
+	var snames []string
+	for _, n := range texts("a1[]?\\-^", 3) {
+		if n == "" {
+			continue
+		}
+		if os.WriteFile(filepath.Join(special, n), []byte("x"), 0o644) == nil {
+			snames = append(snames, n)
+		}
+	}
+	sort.Strings(snames)
+	if c.Level("special characters") {
+		for _, pat := range texts("a1[]?\\-^*", 4) {
+			pat := pat
+			if pat == "" || strings.Count(pat, "*") > 2 {
+				continue
+			}
+			if c.Unit(func() string { return "special: " + pat }) {
+				c20Compare(c, special, pat, false, snames, "special")
+			}
+		}
+	}
+	// (1c) symbolic links: a linked directory is a directory segment like any other (written out
+	// or matched by a star), a linked regular file is a file
+	links := filepath.Join(root, "links")
+	os.MkdirAll(filepath.Join(links, "real", "sub"), 0o755)
+	for _, f := range []string{"real/a.txt", "real/b.txt", "real/sub/c.txt", "f.txt", "g.md"} {
+		os.WriteFile(filepath.Join(links, f), []byte("x"), 0o644)
+	}
+	os.Symlink("real", filepath.Join(links, "cur"))
+	os.Symlink(filepath.Join(links, "real"), filepath.Join(links, "abs"))
+	os.Symlink("f.txt", filepath.Join(links, "lf.txt"))
+	os.Symlink(filepath.Join("real", "sub"), filepath.Join(links, "csub"))
+	os.Symlink("nowhere.txt", filepath.Join(links, "lost.txt")) // a dangling link is no file
+	var lall []string
+	var walk func(rel string, depth int)
+	walk = func(rel string, depth int) {
+		entries, _ := os.ReadDir(filepath.Join(links, rel))
+		for _, e := range entries {
+			r := filepath.Join(rel, e.Name())
+			st, err := os.Stat(filepath.Join(links, r)) // follows links
+			if err != nil {
+				continue
+			}
+			if st.IsDir() {
+				if depth < 3 {
+					walk(r, depth+1)
+				}
+			} else if st.Mode().IsRegular() {
+				lall = append(lall, r)
+			}
+		}
+	}
+	walk("", 0)
+	sort.Strings(lall)
+	if c.Level("links") {
+		dsl := []string{"cur", "real", "abs", "csub", "c*", "*r", "a*", "*", "re*l", "sub", "s*"}
+		fsl := []string{"a.txt", "*.txt", "*", "c.txt", "lf.txt", "l*", "f*", "*.md"}
+		var pats []string
+		for _, f := range fsl {
+			pats = append(pats, f)
+			for _, d := range dsl {
+				pats = append(pats, d+"/"+f)
+				for _, d2 := range dsl {
+					pats = append(pats, d+"/"+d2+"/"+f)
+				}
+			}
+		}
+		for _, pat := range pats {
+			pat := pat
+			if strings.HasPrefix(pat, "*/") || strings.Contains(pat, "/*/") {
+				continue // star-only directory segments are excluded by the property
+			}
+			if c.Unit(func() string { return "links: " + pat }) {
+				c20Compare(c, links, pat, false, lall, "links")
+				c20Compare(c, links, pat, true, lall, "links")
 			}
 		}
 	}
